@@ -4,8 +4,9 @@ package main
 // histories that also assign variables the eager specification does not talk about (RS, INPUTMODE): the same program is run
 // with and without one extra read inserted after the record assignment; everything observed afterwards must be equal.
 //
-// Known finding G06-1: ensureFields consults `RS == ""` and INPUTMODE as they are at the first field access instead of saving
-// them at setLine (only FS is saved), so a read before an RS/INPUTMODE assignment changes what is split.
+// G06-1 (repaired in 7d0fcb7): ensureFields consulted `RS == ""` and INPUTMODE as they were at the first field access instead of
+// saving them at setLine (only FS was saved), so a read before an RS/INPUTMODE assignment changed what was split. The stream now
+// has no known-finding class: any difference is a violation.
 
 import (
 	"bytes"
@@ -89,14 +90,8 @@ func runPurity(c *vh.Ctx) {
 			continue
 		}
 		if a.Out != b.Out || a.Err != b.Err {
-			finding := ""
-			if pc.TogglesRS && pc.Read != `x = $0;` {
-				// class predicate of G06-1: RS or INPUTMODE is assigned between the record assignment and its first field/NF
-				// access, and the inserted read is a field/NF access (a read of $0 does not split)
-				finding = "G06-1"
-			}
 			c.Fail(vh.Failure{Kind: "oracle", What: fmt.Sprintf("a read (%s) inserted after the record assignment changes what is observed afterwards", pc.Read),
-				Finding: finding, Case: pc, Got: fmt.Sprintf("with the read: %q %s", b.Out, b.Err), Want: fmt.Sprintf("without: %q %s", a.Out, a.Err)})
+				Case: pc, Got: fmt.Sprintf("with the read: %q %s", b.Out, b.Err), Want: fmt.Sprintf("without: %q %s", a.Out, a.Err)})
 		}
 	}
 }
